@@ -93,7 +93,10 @@ def resolved_moments(draw, N):
 @st.composite
 def fidelity_case(draw):
     N = draw(st.sampled_from(NS))
-    return {"N": N, **draw(resolved_moments(N))}
+    # optionally an earlier call of the same estimator with non-default (looser) optional solver settings
+    prior = draw(st.sampled_from([None, None, None, {"atol": 0.25, "max_iter": 5}, {"max_iter": 2}, {"atol": 0.1},
+                                  {"max_line_search_depth": 1, "rcond": 1e-2}]))
+    return {"N": N, **draw(resolved_moments(N)), "prior_solver_config": prior}
 
 
 def run_fidelity(c):
@@ -103,6 +106,11 @@ def run_fidelity(c):
     m = np.array(c["m"])
     a = [np.array([x]) for x in m]
     out = {}
+    if c.get("prior_solver_config"):
+        # settings passed to one call are that call's only: the default-settings calls below must still meet the
+        # documented tolerance (the estimators are functions of their arguments, not of the call history)
+        Dp = np.asarray(est(*a, d, method="mem2", solution_method="newton", solver_config=dict(c["prior_solver_config"])))[0]
+        require(Dp.shape == (N,) and np.isfinite(Dp).all(), "call_with_solver_config_returns_distribution", f"{Dp.shape}")
     for name, kw in (("mem", dict(method="mem")), ("newton", dict(method="mem2", solution_method="newton")),
                      ("scipy", dict(method="mem2", solution_method="scipy"))):
         D = np.asarray(est(*a, d, **kw))[0]
@@ -126,6 +134,8 @@ def run_fidelity(c):
         require(err <= bound, "mem_reproduces_moments_within_grid_bound",
                 f"N={N} spread/bin>={b} moments={m.tolist()} norm={err:.4e} bound={bound:.4e}")
         classes.append("mem_bound_asserted")
+    if c.get("prior_solver_config"):
+        classes.append("after_a_call_with_optional_solver_settings")
     R = math.hypot(m[0], m[1])
     return {"nontrivial": R > 0.05, "classes": classes}
 
